@@ -17,7 +17,8 @@ where
     let mut x_curr: f64 = bounds.init;
     let mut upper_bound: f64 = bounds.upper;
 
-    if x_curr < lower_bound || x_curr > upper_bound {
+    // A NaN guess compares false both ways: it is not inside any bracket either
+    if x_curr.is_nan() || x_curr < lower_bound || x_curr > upper_bound {
         return Err(SolverError::XInitOutOfBounds);
     }
 
